@@ -8,13 +8,14 @@ CHECKS["C17"] = dict(
          "node-specific and a group configuration are present; states are deduplicated on (nodeCfg, groupCfg, "
          "currentCfg, last delivered); (b) explicit-state BFS over environment events (add/modify/delete/error events, watch expiry, API unreachable/reachable, retry timer expiry) "
          "on the real ObjectWatch with its goroutine: the retry timer is owned by the harness (time import redirected to vtime), the fake API's watches are unbuffered, the goroutine is waited for until it blocks in its select; "
-         "oracle: every delivered event reaches the consumer once and in order, the watch always has an open API watch or an armed retry, and it recovers once the API is reachable",
-    bound=dict(quick="agent: all event sequences up to depth 6 over a 14-event alphabet; watch: depth 6 over 8 environment events",
-               thorough="agent: depth 9 over a 16-event alphabet; watch: depth 8"),
-    assumptions=["events are delivered by calling Agent.updateNodeConfig/updateGroupConfig directly (the select loop "
-                 "in Agent.Start only dispatches to them)", "notify callback never reports a fatal error"],
+         "oracle: every delivered event reaches the consumer once and in order, the watch always has an open API watch or an armed retry, and it recovers once the API is reachable; (c) explicit-state BFS through the real event loop: Agent.Start() with its three real ObjectWatch wrappers (node watch served by a local HTTP server, configuration watches from a harness ConfigInterface, reopen timers harness-owned), events per kind add / modify / same-version / delete / watch error + timer expiry (a reopened watch re-delivers the existing object), judged against the same reference machine after the loop and all wrapper goroutines are parked; a watch error or a reopen must change nothing",
+    bound=dict(quick="agent: all event sequences up to depth 6 over a 14-event alphabet; watch: depth 6 over 8 environment events; event loop: depth 5 over up to 9 enabled events",
+               thorough="agent: depth 9 over a 16-event alphabet; watch: depth 8; event loop: depth 7"),
+    assumptions=["stage (a) delivers events by calling Agent.updateNodeConfig/updateGroupConfig directly; the dispatch of the select loop in Agent.Start is covered by stage (c), "
+                 "where quiescence is observed through the goroutine states of the loop and the wrappers (runtime.Stack) and empty watcher channels, twice in a row", "notify callback never reports a fatal error"],
     stages=[dict(pkg="./pkg/agent", run="TestVerifC17", shards=1),
-            dict(pkg="./pkg/agent/watch", run="TestVerifC17Watch", shards=1)],
+            dict(pkg="./pkg/agent/watch", run="TestVerifC17Watch", shards=1),
+            dict(pkg="./pkg/agent", run="TestVerifC17Start", shards=1)],
 )
 
 CHECKS["C20"] = dict(
@@ -55,7 +56,7 @@ CHECKS["C16"] = dict(
     rule="every machine of the family packages{1,2,4} x dies{1,2} x NUMA/die{1,2} x cores{1,2(,3)} x threads{1,2} x 17 variants "
          "(HT numbering, core ids that restart in every die, offline/isolated CPUs incl. all-but-one CPU isolated, CPU-less PMEM/HBM nodes, memory-less and movable-only nodes, cache sharing patterns, hybrid cores, cpufreq); "
          "non-trivial = machines with at least one irregularity (extra nodes, offline/isolated CPUs, memory-less node, hybrid cores)",
-    bound=dict(quick="~570 machines for discovery; ~250 machines x 4 available/reserved configurations for the pool tree", thorough="~830 machines; ~250 machines x 6 configurations"),
+    bound=dict(quick="~570 machines for discovery; ~250 machines x 4 available/reserved configurations for the pool tree, each configuration also reached by an accepted update from each of the others (12 ordered pairs per machine; the pools must equal those of a fresh start)", thorough="~830 machines; ~250 machines x 6 configurations + 30 ordered pairs"),
     assumptions=["sysfs model: node ids contiguous from 0, an offline CPU keeps its nodeN link but has no topology directory, node cpulist lists online CPUs only"],
     stages=[dict(pkg="./pkg/sysfs", run="TestVerifC16Discovery", shards=16),
             dict(pkg="./pkg/resmgr", run="TestVerifC16Pools", shards=16)],
